@@ -1033,12 +1033,19 @@ func randomCase(rng *wh.Rng) string {
 	steps := rng.Intn(3) == 0
 	nextDec := 0
 	ranOnce := false
+	// a quarter of the stepwise configurations have NO publisher decorators and subscriber decorators that may fail the first
+	// time they are applied (in the code as it is a failed decorateHandlerSubscriber leaves the publisher, decorated just
+	// before, decorated - with publisher decorators the retried RunHandlers would apply them twice, see DESIGN.md)
+	subFail := steps && rng.Intn(4) == 0
 	maybeStep := func() {
 		if !steps {
 			return
 		}
 		switch rng.Intn(6) {
 		case 0:
+			if subFail {
+				return
+			}
 			nextDec++
 			if rng.Intn(4) == 0 {
 				toks = append(toks, "M"+strconv.Itoa(nextDec)) // watermill's own transform publisher decorator
@@ -1051,7 +1058,11 @@ func randomCase(rng *wh.Rng) string {
 			toks = append(toks, d)
 		case 1:
 			nextDec++
-			toks = append(toks, "E"+strconv.Itoa(nextDec))
+			e := "E" + strconv.Itoa(nextDec)
+			if subFail && ranOnce && rng.Intn(2) == 0 {
+				e += "!"
+			}
+			toks = append(toks, e)
 		case 2:
 			toks = append(toks, "RUN")
 			ranOnce = true
@@ -1063,7 +1074,7 @@ func randomCase(rng *wh.Rng) string {
 	if rng.Intn(5) == 0 {
 		toks = append(toks, "K") // application values under plain string keys with the router's key texts
 	}
-	if steps && rng.Intn(2) == 0 {
+	if steps && !subFail && rng.Intn(2) == 0 {
 		nextDec++
 		toks = append(toks, "D"+strconv.Itoa(nextDec))
 	}
@@ -1345,6 +1356,11 @@ func failingDecoratorCases(emit func(string, string)) {
 		{"K", "D1", "E2", hA, hB, hC},
 		{hA, "RUN", "K", "E1", hB, hC, "RUN"},
 		{"K", hA, "RUN", "D1!", "K", hB, "RUN"},
+		// a SUBSCRIBER decorator fails once (no publisher decorators in these): RunHandlers must report it, the retried call
+		// starts the handler fully decorated - context values inside the function, every subscriber decorator once
+		{hA, "RUN", "E1!", hB, "RUN"},
+		{"E1", hA, "RUN", "E2!", "E3", hB, hC, "RUN", "RUN"},
+		{"RUN", "E1", "E2!", hA, hB, hC, "RUN"},
 	}
 	for _, pr := range progs {
 		toks := append(append(append([]string{}, head...), pr...), ds...)
@@ -1477,6 +1493,9 @@ func main() {
 				if strings.HasSuffix(t, "!") {
 					out.Count("ops.publisher_decorator_failing_once")
 				}
+			case t[0] == 'E' && strings.HasSuffix(t, "!"):
+				out.Count("ops.AddSubscriberDecorators")
+				out.Count("ops.subscriber_decorator_failing_once")
 			case t[0] == 'E' && !strings.Contains(t, "="):
 				out.Count("ops.AddSubscriberDecorators")
 			case strings.HasPrefix(t, "d="):
